@@ -23,7 +23,7 @@ theorem Inv.with_roots {f : Forest} (hi : f.Inv) (roots' : List HTree) (X : List
     exact h3 h (hp.subset (List.mem_append_left _ hh))
 
 /-- Edit of the child list in the hole of a path. -/
-theorem Inv.edit {f : Forest} (hi : f.Inv) {path : List Frame} {ks ks' : List HTree} (X : List Nat)
+theorem Inv.edit {f : Forest} (hi : f.Inv) {path : List ZipFrame} {ks ks' : List HTree} (X : List Nat)
     (he : f.roots = plug path ks) (hp : (handlesList ks' ++ X).Perm (handlesList ks))
     (hk : kidsOKopt (!f.everOff) (innerValue path) ks' = true)
     (hl : validList (!f.everOff) ks' = true) : ({ f with roots := plug path ks' } : Forest).Inv := by
@@ -38,7 +38,7 @@ theorem Inv.edit {f : Forest} (hi : f.Inv) {path : List Frame} {ks ks' : List HT
     rw [he] at this
     exact valid_plug_replace _ path ks ks' this hk hl
 
-theorem Inv.kids_at {f : Forest} (hi : f.Inv) {path : List Frame} {ks : List HTree}
+theorem Inv.kids_at {f : Forest} (hi : f.Inv) {path : List ZipFrame} {ks : List HTree}
     (he : f.roots = plug path ks) :
     kidsOKopt (!f.everOff) (innerValue path) ks = true ∧ validList (!f.everOff) ks = true := by
   have := hi.valid
@@ -92,7 +92,7 @@ theorem value?_setValue_ne {f : Forest} (nd : f.allHandles.Nodup) {p x : Nat} (h
     intro w
     rw [value?_eq_some_iff nd', value?_eq_some_iff nd, setValue_of_loc v' lc nd, lc.eq]
     simp only [mem_hvList_plug, hvList_append, hvList_cons, List.mem_append, hv_eq k,
-      hv_eq (k.setValue v'), setValue_handle, setValue_value, setValue_kids, List.mem_cons,
+      hv_eq (k.setValue v'), fi_setValue_handle, fi_setValue_value, fi_setValue_kids, List.mem_cons,
       Prod.mk.injEq, lc.hk]
     constructor <;> intro hh <;> rcases hh with hh | hh | (hh | hh) | hh
     all_goals first
@@ -125,7 +125,7 @@ theorem spliceOut_text_inv {f : Forest} (hi : f.Inv) {n : Nat} {s : Str} (ht : f
   obtain ⟨k1, k2⟩ := hi.kids_at lc.eq
   have key : ({ f with roots := plug path (l ++ r) } : Forest).Inv := by
     apply hi.edit [n] lc.eq
-    · simp only [fi_handlesList_append, handlesList_cons, fi_handles_eq k, hkids, lc.hk, handlesList_nil,
+    · simp only [fi_handlesList_append, fi_handlesList_cons, fi_handles_eq k, hkids, lc.hk, fi_handlesList_nil,
         List.append_assoc]
       exact List.Perm.append_left _ List.perm_append_comm
     · cases hiv : innerValue path with
